@@ -170,7 +170,7 @@ var triggers = []trigger{
 		// register value.
 		id: "KF-T1", props: []string{"C12"},
 		match: func(c *core.Case, f *features, class string, v *core.Verdict) bool {
-			return (c.Cfg.V == mach.MVP71 || c.Cfg.V == mach.MVP80) && class == "value-dependent-cycles" && f.memBaseWrittenRecently
+			return (c.Cfg.V == mach.MVP71 || c.Cfg.V == mach.MVP80) && class == "value-dependent-cycles" && deadBaseValueDiffers(c)
 		},
 	},
 }
@@ -247,4 +247,47 @@ func matchTrigger(prop string, kf *findings.Set, c *core.Case, class string, v *
 		}
 	}
 	return ""
+}
+
+// deadBaseValueDiffers: in the value-independence pair of c some load or store
+// has a base register that held different values in the two runs within the
+// last 32 executed instructions before it (the final address is the same in
+// both runs; an address computed early from the not yet updated register is not).
+func deadBaseValueDiffers(c *core.Case) bool {
+	ref := isa.Exec(c.Prog, c.Init, 20000, true)
+	if !ref.End.WellFormed() {
+		return false
+	}
+	s2, ref2, ok := secondState(c, ref)
+	if !ok {
+		return false
+	}
+	const window = 32
+	ra, rb := c.Init.Regs, s2.Regs
+	var diffUntil [isa.NumRegs]int
+	for r := range diffUntil {
+		diffUntil[r] = -1 << 30
+		if ra[r] != rb[r] {
+			diffUntil[r] = 0
+		}
+	}
+	for i := range ref.Trace {
+		a, b := ref.Trace[i], ref2.Trace[i]
+		in := c.Prog.Insts[a.Idx]
+		for r := range diffUntil {
+			if ra[r] != rb[r] {
+				diffUntil[r] = i
+			}
+		}
+		if (in.Op.IsLoad() || in.Op.IsStore()) && i-diffUntil[in.Rs1] <= window {
+			return true
+		}
+		if a.WroteRd && in.Rd != isa.Zero {
+			ra[in.Rd] = a.Value
+		}
+		if b.WroteRd && in.Rd != isa.Zero {
+			rb[in.Rd] = b.Value
+		}
+	}
+	return false
 }
